@@ -861,7 +861,7 @@ def run(chk, replay=None):
                 "neighbours at the spacing of doubles, F-9's range, decimal ties +-2, dense random n against the real functions): that CPU and compiler implement "
                 "IEEE-754 binary64 for static_cast<double>(int64_t), operator/ and operator< (x86-64 SSE2, round-to-nearest mode, no -ffast-math), and that "
                 "glibc's printf implements that %.<p>f specification",
-                "axioms of Coq's real numbers, used ONLY by C17_binary64_semantics, C17_ieee754_bit_level, C17_printf_fixed_spec and C17_g12_spec (via Flocq 4 and Coq.Reals; "
+                "axioms of Coq's real numbers, used ONLY by C17_binary64_semantics, C17_ieee754_bit_level, C17_printf_fixed_spec, C17_g12_spec and C17_thresholds_are_binary64 (via Flocq 4 and Coq.Reals; "
                 "every other theorem of C17 is closed under the global context): ClassicalDedekindReals.sig_not_dec, ClassicalDedekindReals.sig_forall_dec, "
                 "FunctionalExtensionality.functional_extensionality_dep, Classical_Prop.classic",
                 "Flocq 4.1 (installed under user-contrib/Flocq): Core (round, FLT_exp, FIX_exp, ZnearestE) as the definition of rounding to nearest even, "
